@@ -117,3 +117,67 @@ def run(ctx, F):
             okg = any(p.val == "Some" and "branch" in show(p.tree) for p in g) and any(p.val == "Continue" and "branch" in show(p.tree) for p in g)
             ctx.judge(okv and okg, "C30.store-returned", "%s: slot store at line %s writes what update_fn returned" % (short(f.q), c.line), expected="store(new_state) with new_state = Some payload of update_fn(..)?, on the Some arm only",
                       found="value=%s" % v[:140], where=where(f, c.line), key="C30.store-returned|val|%s" % f.q)
+    _range_walk(ctx, F)
+
+
+def _range_walk(ctx, F):
+    """C30.range-walk: the requested range is covered chunk by chunk. (a) ChunkRange::new_unaligned covers [start, start+bytes):
+    it spans align_down(start) .. align_up(start + bytes). (b) bulk_transition_state walks the range group by group: every
+    iteration (every back edge of the group loop) advances the group cursor, so the address range handed to update_fn and the
+    slots updated stay in step."""
+    f = F.fn("util::heap::layout::mmapper::csm::ChunkRange::new_unaligned")
+    na = live_calls(f, name="new_aligned")
+    ok = len(na) == 1
+    found = "%d new_aligned calls" % len(na)
+    if ok:
+        a0, a1 = show(strip(f.flow.arg_tree(na[0], 0))), show(strip(f.flow.arg_tree(na[0], 1)))
+        ok = bool(re.match(r"^Address::align_down\(arg1, vm_layout::BYTES_IN_CHUNK=\d+\)$", a0)) and \
+            bool(re.match(r"^<Address as Sub<util::address::Address>>::sub\(Address::align_up\(<Address as Add<usize>>::add\(arg1, arg2\), vm_layout::BYTES_IN_CHUNK=\d+\), Address::align_down\(arg1, vm_layout::BYTES_IN_CHUNK=\d+\)\)$", a1))
+        found = "new_aligned(%s, %s)" % (a0[:80], a1[:200])
+    ctx.judge(ok, "C30.range-walk", "ChunkRange::new_unaligned covers every chunk touched by [start, start + bytes)", expected="new_aligned(align_down(start), align_up(start + bytes) - align_down(start))",
+              found=found, where=where(f), key="C30.range-walk|unaligned")
+    impls = [g for q, g in F.fns.items() if q.endswith("MapStateStorage>::bulk_transition_state") and g.blocks]
+    for g in impls:
+        cur = [i for i in range(len(g.locals)) if g.local_name(i) == "start_index"]
+        if len(cur) != 1:
+            # implementations that do not group (one slot per step) have no group cursor
+            continue
+        asg = [(i, j) for i, b in enumerate(g.blocks) if i in g.cfg.live for j, st in enumerate(b["s"]) if st[0] == "=" and st[1] == [cur[0]]]
+        heads = {}
+        for b in g.cfg.live:
+            for s, _ in g.cfg.succ[b]:
+                if s in g.cfg.live and g.cfg.dominates(s, b):
+                    heads.setdefault(s, []).append(b)
+        # the loop that contains an assignment of the cursor
+        inner = list(asg)
+        okc = False
+        found = "cursor assignments=%s loop heads=%s" % (asg, sorted(heads))
+
+        def body(h, srcs):
+            # natural loop: blocks that reach a back-edge source without passing the head
+            seen, work = {h}, [x for x in srcs]
+            while work:
+                n = work.pop()
+                if n in seen:
+                    continue
+                seen.add(n)
+                work += [p for p, _ in g.cfg.pred[n] if p in g.cfg.live]
+            return seen
+        cands = []
+        for h, srcs in heads.items():
+            bd = body(h, srcs)
+            adv = [(i, j) for (i, j) in inner if i in bd and i != h]
+            if adv:
+                cands.append((len(bd), h, srcs, adv))
+        if cands:
+            _, h, srcs, adv = sorted(cands)[0]
+            okc = all(any(g.cfg.dominates(i, src) for (i, j) in adv) for src in srcs)
+            found = "loop head bb%d back edges from %s cursor advanced at %s" % (h, srcs, [i for i, j in adv])
+        ctx.judge(okc, "C30.range-walk", "%s advances the group cursor on every iteration" % short(g.q), expected="every back edge of the group loop is dominated by `start_index = end_index`",
+                  found=found, where=where(g), key="C30.range-walk|cursor|" + g.q)
+        # the advance takes the end of the group just processed
+        for (i, j) in [(i, j) for (i, j) in asg if any(g.cfg.dominates(h, i) for h in heads)]:
+            t = show(strip(g.flow.rvalue_tree(g.blocks[i]["s"][j][2], i, j)))
+            ctx.judge("Add" in t and "len" in t, "C30.range-walk", "%s: the cursor moves to the end of the group" % short(g.q), expected="start_index + group.len", found=t[:120], where=where(g),
+                      key="C30.range-walk|advance|" + g.q)
+    ctx.floor("C30.range-walk", len(impls), 1, "bulk_transition_state implementations")
